@@ -96,6 +96,15 @@ Qed.
 Lemma subject_ok_default s c : subject_ok s c -> (s = SubIsIssuer -> c_sub c = c_iss c) /\ s <> SubNil.
 Proof. destruct s; cbn; intro H; split; try discriminate; try (intros _; exact H); try contradiction; intro; discriminate. Qed.
 
+Lemma subject_allowed_ok s c : subject_allowed s (c_iss c) (c_sub c) = true <-> subject_ok s c.
+Proof.
+  destruct s as [| |x|]; cbn [subject_allowed subject_ok].
+  - apply String.eqb_eq.
+  - split; [intros _; exact I | reflexivity].
+  - apply String.eqb_eq.
+  - split; [discriminate | intros []].
+Qed.
+
 Lemma verify_assertion_iff verify v t now tok c :
   verify_assertion verify v t now tok = Ok c <->
   exists d, tok = TJws d c
@@ -411,6 +420,61 @@ Proof.
   now apply interop_fresh.
 Qed.
 
+(* ---------------------------------------------------------------- subject check: options, delegation *)
+
+(* op.SubjectCheck(f) REPLACES the check: of several options the last one is in force,
+   whatever came before (the built-in default included); no option = the default *)
+Lemma subject_options_last before s : subject_options (before ++ [s]) = s.
+Proof. unfold subject_options. apply last_last. Qed.
+
+Lemma subject_option_replaces before s :
+  subject_options (before ++ [s]) = s /\ subject_options [] = SubIsIssuer.
+Proof. split; [apply subject_options_last | reflexivity]. Qed.
+
+(* the configured check - and nothing else - decides about the subject of an accepted assertion *)
+Lemma assertion_subject_decided verify v t now tok c :
+  verify_assertion verify v t now tok = Ok c -> subject_allowed (v_sub v) (c_iss c) (c_sub c) = true.
+Proof.
+  intro H. apply verify_assertion_iff in H. destruct H as (d & _ & _ & _ & Hs & _).
+  now apply subject_allowed_ok.
+Qed.
+
+Lemma helper_claims_opt_none client auds life tb :
+  helper_claims_opt client None auds life tb = helper_claims client auds life tb.
+Proof. reflexivity. Qed.
+
+(* a helper call with the delegated-subject option, everything else as in [interop_fresh]:
+   accepted exactly when the verifier's configured subject check allows the asked subject *)
+Lemma interop_delegated verify v t now tb client dsub kid key alg auds life :
+  (forall d, sd_intact d = true -> verify (sd_signer d) d = true) ->
+  lookup_key t client kid = Some key ->
+  In alg accepted_algs -> In (v_issuer v) auds ->
+  0 <= v_offset v ->
+  (v_max_age v = 0 \/ now - tb + second + half_second <= v_max_age v) ->
+  second <= tb -> tb <= now ->
+  now + v_offset v < (tb / second + life) * second ->
+  (verify_assertion verify v t now (helper_token_opt client dsub auds life alg kid key tb)
+   = Ok (helper_claims_opt client dsub auds life tb)
+   <-> subject_allowed (v_sub v) client (asked_sub dsub client) = true).
+Proof.
+  intros Hv Hk Hal Ha Ho Hm Htb Hnow He. split.
+  - intro H. apply assertion_subject_decided in H. exact H.
+  - intro Hsub. unfold helper_token_opt. apply verify_assertion_iff.
+    exists (mkSig true alg kid key true). split; [reflexivity|]. split; [exact Ha|].
+    split.
+    + unfold time_ok, helper_claims_opt. cbn [c_exp c_iat].
+      assert (Hf := round_s_floor (tb / second) (now + v_offset v)).
+      assert (Hr : round_s (now - v_max_age v) <= now - v_max_age v + half_second)
+        by (unfold round_s, second, half_second; lia).
+      generalize dependent (round_s (now + v_offset v)). generalize dependent (round_s (now - v_max_age v)).
+      intros r2 Hr r1 Hf. unfold second, half_second in *.
+      repeat split; lia.
+    + split; [apply subject_allowed_ok; exact Hsub|].
+      unfold sig_ok, helper_claims_opt. cbn [sd_wf sd_alg sd_kid c_iss].
+      split; [reflexivity|]. split; [exact Hal|]. exists key. split; [exact Hk|].
+      apply (Hv (mkSig true alg kid key true)). reflexivity.
+Qed.
+
 (* ---------------------------------------------------------------- request objects *)
 
 Definition no_empty_client (t : keytable) : bool :=
@@ -643,14 +707,17 @@ Proof.
 Qed.
 
 (* the guard of the main theorem: what a call [h] of a client helper is assumed to send
-   (accepted algorithm - see Fxx-C14-1 -, sub = iss, the configured issuer in aud, and
+   (accepted algorithm - see Fxx-C14-1 -, iss = the client the helper was configured with, sub = the subject the caller asked for
+   (oidc.JWTProfileDelegatedSubject) resp. iss when none was asked, the configured issuer in aud, and
    FRESH claims: iat = a clock reading inside the bracket of THAT call, cut to seconds,
    exp at least the asked lifetime after the start of the call - i.e. [helper_claims]
    for a clock reading of the call, see [helper_claims_built_ok]); the correspondence run
    checks the real helpers, called repeatedly on long-lived instances, against it
    through [spec] *)
 Definition helper_built_ok (v : vcfg) (h : hcall) (d : sigdesc) (c : claims) : bool :=
-  string_in (sd_alg d) accepted_algs && String.eqb (c_sub c) (c_iss c) && string_in (v_issuer v) (c_aud c)
+  string_in (sd_alg d) accepted_algs && String.eqb (c_iss c) (h_client h)
+  && String.eqb (c_sub c) (asked_sub (h_sub h) (h_client h))
+  && string_in (v_issuer v) (c_aud c)
   && Z.leb (h_t0 h / second) (c_iat c) && Z.leb (c_iat c) (h_t1 h / second)
   && Z.leb (h_t0 h / second + h_life h) (c_exp c).
 
@@ -662,11 +729,11 @@ Definition helper_alg_accepted (i : input) : bool :=
 
 Lemma helper_claims_built_ok v h client auds life alg kid key tb :
   In alg accepted_algs -> In (v_issuer v) auds ->
-  h_t0 h <= tb -> tb <= h_t1 h -> h_life h = life ->
-  helper_built_ok v h (mkSig true alg kid key true) (helper_claims client auds life tb) = true.
+  h_t0 h <= tb -> tb <= h_t1 h -> h_life h = life -> h_client h = client ->
+  helper_built_ok v h (mkSig true alg kid key true) (helper_claims_opt client (h_sub h) auds life tb) = true.
 Proof.
-  intros Hal Ha H0 H1 Hl. unfold helper_built_ok, helper_claims. cbn [sd_alg c_sub c_iss c_aud c_iat c_exp].
-  apply string_in_In in Hal. apply string_in_In in Ha. rewrite Hal, Ha, String.eqb_refl. cbn [andb].
+  intros Hal Ha H0 H1 Hl Hc. unfold helper_built_ok, helper_claims_opt. cbn [sd_alg c_sub c_iss c_aud c_iat c_exp].
+  apply string_in_In in Hal. apply string_in_In in Ha. rewrite Hc, Hal, Ha, !String.eqb_refl. cbn [andb].
   unfold second in *. repeat (apply andb_true_iff; split); lia.
 Qed.
 
@@ -703,7 +770,11 @@ Lemma must_accept_model e v t cl t0 t1 h d c :
   verify_assertion sym_verify v t t0 (TJws d c) = Ok c
   /\ entry_need e cl c.
 Proof.
-  intros Ht Hb H. unfold must_accept in H. unfold helper_built_ok in Hb.
+  intros Ht Hb H.
+  assert (Hiss : h_client h = c_iss c).
+  { unfold helper_built_ok in Hb. repeat (apply andb_true_iff in Hb; destruct Hb as [Hb ?]).
+    match goal with Hi : String.eqb (c_iss c) (h_client h) = true |- _ => apply String.eqb_eq in Hi; now symmetry end. }
+  unfold must_accept in H. unfold helper_built_ok in Hb. rewrite Hiss in H, Hb.
   repeat (apply andb_true_iff in Hb; destruct Hb as [Hb ?]).
   rename Hb into Hal.
   repeat (apply andb_true_iff in H; destruct H as [H ?]).
@@ -720,8 +791,9 @@ Proof.
       intros r2 Hr r1 Hf. unfold second, half_second in *.
       repeat split; lia.
     + split.
-      { match goal with Hsc : match v_sub v with SubIsIssuer => _ | _ => _ end = true |- _ => rename Hsc into Hsubcfg end.
-        destruct (v_sub v); try discriminate; cbn [subject_ok]; [now apply String.eqb_eq | exact I]. }
+      { match goal with Hsc : subject_allowed _ _ _ = true |- _ => rename Hsc into Hsubcfg end.
+        match goal with Hsb : String.eqb (c_sub c) _ = true |- _ => apply String.eqb_eq in Hsb; rewrite <- Hsb in Hsubcfg end.
+        now apply subject_allowed_ok. }
       unfold sig_ok. split; [assumption|]. split; [now apply string_in_In|].
       now apply signed_by_named_iff.
   - match goal with He : match e with EVerify => _ | _ => _ end = true |- _ => rename He into Hent end.
@@ -790,7 +862,7 @@ Qed.
 
 (* the recorded finding: a helper-built assertion for a registered Ed25519 key *)
 Definition eddsa_witness : input :=
-  IAssert EVerify (Some (mkH (1000 * second + 1) (1000 * second + 2) 3600))
+  IAssert EVerify (Some (mkH (1000 * second + 1) (1000 * second + 2) 3600 "c" None))
     (mkV "https://op" (3600 * second) second SubIsIssuer CtorStorage)
     [("c", "k", 0%nat)] [] (1000 * second + 5) (1000 * second + 7)
     (TJws (mkSig true "EdDSA" "k" 0%nat true) (mkClaims "c" "c" ["https://op"] 1000 4600)).
@@ -889,3 +961,25 @@ Example request_object_zero_max_age :
           (OReq None (mkAR ["openid"] "code" "c-alpha" "https://rp/cb" "s" "n" "" "" [] (Some 3600%N) [] "" "" [] "" "") true)
      = false.
 Proof. split; vm_compute; reflexivity. Qed.
+
+(* delegation: the helper is asked for sub = "user-1" (oidc.JWTProfileDelegatedSubject).  A
+   verifier built with op.SubjectCheck(accept-all) - also passed after another SubjectCheck
+   option - or with a check that allows exactly "user-1" accepts it; the default check and a
+   check that allows only "user-2" refuse it; [spec] flags a refusal by the accept-all
+   verifier (what a SubjectCheck option that keeps the default in force produces) and does
+   not flag the refusal by the default verifier. *)
+Example delegated_nonvacuous :
+  let tb := 1000 * second + 1 in let now := 1000 * second + 5 in
+  let tok := helper_token_opt "c-alpha" (Some "user-1") ["https://op"] 3600 "RS256" "a1" 0%nat tb in
+  let c := helper_claims_opt "c-alpha" (Some "user-1") ["https://op"] 3600 tb in
+  let vwith s := mkV "https://op" (3600 * second) second s CtorStorage in
+  let h := mkH tb (tb + 1) 3600 "c-alpha" (Some "user-1") in
+  verify_assertion sym_verify (vwith (subject_options [SubAny])) nv_table now tok = Ok c
+  /\ verify_assertion sym_verify (vwith (subject_options [SubIsIssuer; SubOnly "x"; SubAny])) nv_table now tok = Ok c
+  /\ verify_assertion sym_verify (vwith (SubOnly "user-1")) nv_table now tok = Ok c
+  /\ verify_assertion sym_verify (vwith (subject_options [])) nv_table now tok = Err EOther
+  /\ verify_assertion sym_verify (vwith (subject_options [SubAny; SubOnly "user-2"])) nv_table now tok = Err EOther
+  /\ spec (IAssert EVerify (Some h) (vwith SubAny) nv_table [] now (now + 1) tok) (OAssert (Err EOther)) = false
+  /\ spec (IAssert EVerify (Some h) (vwith SubIsIssuer) nv_table [] now (now + 1) tok) (OAssert (Err EOther)) = true
+  /\ helper_built_ok (vwith SubAny) h (mkSig true "RS256" "a1" 0%nat true) c = true.
+Proof. cbv zeta. repeat split; vm_compute; reflexivity. Qed.
